@@ -211,7 +211,9 @@ func (x *explorer) report(c *confT, r *runner, v *viol) {
 			lastDev = e.K
 		}
 	}
-	group := c.group() + "|" + v.Oracle + "|" + lastDev
+	// one report per oracle and kind of the last deviation (the queue hands out
+	// the simplest traces first); all occurrences are counted
+	group := v.Oracle + "|" + lastDev
 	x.mu.Lock()
 	dup := x.seenV[group]
 	x.seenV[group] = true
